@@ -42,7 +42,7 @@ def r1_table_keys(ctx):
     names = {cls: n[0] for cls, n in lock_fields(ctx.P).items()}
     n_keyed = 0
     for key, body in ctx.P.scan():
-        if not key.startswith("session::session::"):
+        if key.startswith("anytls_"):
             continue
         o = None
         for c in body.calls():
@@ -55,7 +55,8 @@ def r1_table_keys(ctx):
             tbl = _table(ctx, body, o, o.of_operand(c.args[0]), names)
             if tbl not in TABLES:
                 continue
-            fn = key.replace(S, "").split("::{closure")[0]
+            # code of a helper that was spliced into a function of another module still reaches the tables: name it by where it runs
+            fn = key.replace(S, "").split("::{closure")[0] if key.startswith("session::session::") else ctx.P.owner(key)
             if last in BULK:
                 ok = fn == "close"
                 ctx.ob("R02.1", "%s|%s.%s" % (fn, tbl, last), ok, c.site, "bulk %s of %s inside Session::close" % (last, tbl) if ok else
@@ -282,6 +283,9 @@ def r5_write_data_frame(ctx):
 
 
 def run(ctx):
+    from . import C01 as _C01x, C20 as _C20x
+    _C20x.r14_gauges_released_on_every_exit(ctx)    # a session-wide mode switched on for one request is switched off on every way out of it (the other streams' frames are not held back for ever)
+    _C01x.r3_r4_recv_buffer(ctx)     # every complete frame in the receive buffer is dispatched before the loop waits for more input (no stream waits behind another stream's burst)
     from . import effects
     effects.check_property(ctx, "C02")    # R02.E: no operation on shared protocol state outside the reviewed table
     from . import C01, C09, C11
